@@ -100,6 +100,10 @@ PARAM = {
     'Circle2': ('param', 'Circle', None, F(0, 1, 2), ''),
     'UnitSquare2': ('param', 'UnitSquare', None, F(0, 1, 2), ''),
     'LShape2': ('param', 'LShape', None, F(0, 1, 2), ''),
+    # custom tensor grids: elements of equal refinement LEVEL but different size on one side / in one slab family
+    'UnitSquareT': ('param', 'UnitSquare', None, F(0, .25, 1), ''),
+    'CircleT': ('param', 'Circle', None, F(0, .25, 1), ''),
+    'UnitSquareX': ('param', 'UnitSquare', F(0, .25, 1, 2, 3, 4), F(0, 1), ''),
 }
 CFGS = dict(PLAIN)
 CFGS.update(PARAM)
